@@ -595,7 +595,7 @@ pub fn gen_case(seed: u64, shard: u64, run: u64, t: &Tier) -> Option<(Case, &'st
         base_p: 0.6,
         max_env: if layout == "free" { 1 } else { 3 },
         max_sub: 2,
-        limits: if knobs.chance(0.6) { LimitKind::Wide } else { LimitKind::Narrow },
+        limits: if Rng::derive(seed, shard, run, "c12.wrapping").chance(0.12) { LimitKind::Wrapping } else if knobs.chance(0.6) { LimitKind::Wide } else { LimitKind::Narrow },
         ctor: Ctor::Direct,
         touch_only: false,
         sparse: true,
@@ -609,7 +609,12 @@ pub fn gen_case(seed: u64, shard: u64, run: u64, t: &Tier) -> Option<(Case, &'st
     let (lf, lt) = cell.limits.unwrap();
     let clampq = |q: &mut [f64; 6]| {
         for j in 0..6 {
-            q[j] = q[j].clamp(lf[j] + 1e-3, lt[j] - 1e-3);
+            if lf[j] < lt[j] {
+                q[j] = q[j].clamp(lf[j] + 1e-3, lt[j] - 1e-3);
+            } else if oracle::on_arc(q[j], lf[j], lt[j], 1e-3) != oracle::Tri::Yes {
+                // wrap-around arc: back onto it, a little after its start
+                q[j] = lf[j] + 0.05;
+            }
         }
     };
     // stroke as a smooth joint-space curve, so that a continuous solution exists
